@@ -106,7 +106,7 @@ PROPERTIES = {
     'C04': dict(traces=['br'], families=['br.one', 'l1.trees'], title='every recorded withdrawal can be claimed'),
     'C05': dict(traces=['l1'], families=['l1.oracle', 'l1.window', 'l1.oracle-ind', 'l1.oracle-proof'], title='challenge window / finality'),
     'C06': dict(traces=['l2'], families=['l2.relay', 'l2.deposit'], title='L2 credits each deposit exactly once, in order'),
-    'C07': dict(traces=['l2'], families=['l2.deposit'], title='deposit neither lost nor blocking; hooks contained'),
+    'C07': dict(traces=['l2'], families=['l2.deposit', 'l1.ledger'], title='deposit neither lost nor blocking; hooks contained'),
     'C08': dict(traces=['br'], families=['br.one', 'br.live'], title='end-to-end solvency'),
     'C09': dict(traces=['l2'], families=['l2.deposit'], title='L2 bridged supply conserved'),
     'C10': dict(traces=['l1'], families=['l1.ledger'], title='L1 deposit sequences / events'),
